@@ -74,7 +74,8 @@ class Pool:
         }
         json.dump(spec, open(spec_p, "w"))
         return {"ob": ob, "spec": spec_p, "out": out_p, "env": _child_env(extra_env), "tag": tag,
-                "hard": budget * 2.5 + 60, "proc": None, "t0": None, "log": os.path.join(self.tmp, f"{i}.log")}
+                "hard": budget * 2.5 + 60, "proc": None, "t0": None, "log": os.path.join(self.tmp, f"{i}.log"),
+                "entry": "vf.e2child" if ob.engine == "E2" else "vf.child"}
 
     def run_all(self, jobs: List[dict], progress=None) -> None:
         pending = list(jobs)
@@ -84,7 +85,7 @@ class Pool:
                 j = pending.pop(0)
                 j["t0"] = time.time()
                 j["proc"] = subprocess.Popen(
-                    [PY, "-m", "vf.child", j["spec"], j["out"]], env=j["env"], cwd=str(ROOT),
+                    [PY, "-m", j["entry"], j["spec"], j["out"]], env=j["env"], cwd=str(ROOT),
                     stdout=open(j["log"], "w"), stderr=subprocess.STDOUT,
                 )
                 running.append(j)
@@ -174,12 +175,6 @@ def run_property(prop: str, modules: List[str], tier: str, seed: int) -> int:
             corpus_violations.append((mname, v))
         for o in info["obligations"]:
             obs.append(Ob(module=mname, **o))
-    if errors:
-        for e in errors:
-            print("HARNESS-ERROR", e)
-        _write_evidence(prop, tier, seed, t0, [], [], corpus_cases, functions_encoded, assumptions, bounds,
-                        violations=0, harness_errors=errors, known_hits=[])
-        return 3
     if corpus_violations:
         # a pinned concrete input on which the property fails on the current tree: already a
         # concrete run on the real code (no CrossHair, no stubs) -> reported as a violation
@@ -206,6 +201,12 @@ def run_property(prop: str, modules: List[str], tier: str, seed: int) -> int:
                 print(f"VIOLATION property={prop} replay={path}")
             return 1
 
+    if errors:
+        for e in errors:
+            print("HARNESS-ERROR", e)
+        _write_evidence(prop, tier, seed, t0, [], [], corpus_cases, functions_encoded, assumptions, bounds,
+                        violations=0, harness_errors=errors, known_hits=[])
+        return 3
     pool = Pool(NPROC)
     # order: longest budgets first
     obs.sort(key=lambda o: -o.budget_s)
@@ -215,7 +216,7 @@ def run_property(prop: str, modules: List[str], tier: str, seed: int) -> int:
     seen = set()
     for o in obs:
         key = (o.module, o.fn)
-        if key in seen:
+        if key in seen or o.engine == "E2":
             continue
         seen.add(key)
         twins.append(pool.submit(o, seed, {"VF_WITNESS": "1"}, tag="twin", budget_override=min(o.budget_s, 90.0), n_samples=0))
@@ -245,17 +246,23 @@ def run_property(prop: str, modules: List[str], tier: str, seed: int) -> int:
             continue
         for ce in r.get("counterexamples", []):
             cell_j = {k: _jsonable(v) for k, v in ob.cell.items()}
-            rep = replay_concrete(ob.module, ob.fn, cell_j, ce["args"])
+            rfn = ob.fn
+            if ob.engine == "E2":
+                # E2 counterexamples are replayed through the module's concrete twin
+                mod = importlib.import_module(ob.module)
+                rfn, cell_j = mod.replay_target(ob.cell)
+                cell_j = {k: _jsonable(v) for k, v in cell_j.items()}
+            rep = replay_concrete(ob.module, rfn, cell_j, ce["args"])
             ce["replay"] = rep
             if rep.get("outcome") == "violation":
-                kf = match_known(known, prop, ob.fn, ce["args"])
+                kf = match_known(known, prop, rfn, ce["args"])
                 if kf:
                     known_hits.append(kf)
                     continue
                 replay_dir.mkdir(parents=True, exist_ok=True)
                 h = hashlib.sha1(json.dumps([ob.module, ob.fn, cell_j, ce["args"]], sort_keys=True).encode()).hexdigest()[:12]
-                path = replay_dir / f"{ob.fn}-{h}.json"
-                json.dump({"property": prop, "module": ob.module, "function": ob.fn, "cell": cell_j, "args": ce["args"],
+                path = replay_dir / f"{rfn}-{h}.json"
+                json.dump({"property": prop, "module": ob.module, "function": rfn, "cell": cell_j, "args": ce["args"], "claim": ce.get("claim"),
                            "symbolic_exception": ce.get("exception"), "replay": rep}, open(path, "w"), indent=1)
                 violations.append((ob, ce, str(path)))
             elif rep.get("outcome") in ("ok", "skip"):
@@ -304,10 +311,12 @@ def _write_evidence(prop, tier, seed, t0, jobs, twins, corpus_cases, functions, 
     samples = []
     obl = []
     stubs = set()
+    e2_functions = set()
     for j in jobs:
         r = j["result"]
         ob = j["ob"]
         stubs |= set(r.get("stubs", []))
+        e2_functions |= set(r.get("functions_encoded", []))
         obl.append({
             "name": ob.name, "engine": ob.engine, "verdict": r.get("verdict"), "paths": r.get("paths", 0),
             "paths_reaching_assertion": r.get("ok", 0) + r.get("refuted", 0), "paths_outside_precondition": r.get("skipped", 0),
@@ -348,6 +357,7 @@ def _write_evidence(prop, tier, seed, t0, jobs, twins, corpus_cases, functions, 
             "witness_twins_refuted": sum(1 for j in twins if j["result"].get("verdict") == "refuted"),
             "oracle_corpus_cases": corpus_cases,
             "functions_encoded": sorted(functions),
+            "functions_translated_to_smt": sorted(e2_functions),
             "bounds": bounds,
             "stubs": sorted(stubs),
             "obligation_details": obl,
